@@ -59,6 +59,57 @@ def _worker(job):
     return out
 
 
+def _child(job, q):
+    q.put(_worker(job))
+
+
+def run_jobs(jobs, nproc, timeout_s, verbose=False):
+    """One process per scenario (at most nproc at a time) with a wall-clock limit: a solver call that ignores its
+    resource limit cannot hang the check -- the scenario becomes *undecided*."""
+    ctx = mp.get_context('fork')
+    pending = list(enumerate(jobs))
+    running = {}
+    results = [None] * len(jobs)
+    while pending or running:
+        while pending and len(running) < max(1, nproc):
+            i, job = pending.pop(0)
+            q = ctx.Queue()
+            p = ctx.Process(target=_child, args=(job, q))
+            p.start()
+            running[i] = (p, q, time.time(), job)
+        done = []
+        for i, (p, q, t0, job) in running.items():
+            try:
+                r = q.get(timeout=0.02)
+                results[i] = r
+                p.join(1)
+                done.append(i)
+                continue
+            except Exception:
+                pass
+            if not p.is_alive():
+                try:
+                    results[i] = q.get(timeout=0.5)
+                except Exception:
+                    results[i] = {'scenario': job[1]['name'], 'verdicts': [], 'unsupported': [], 'lib': [], 'assumptions': [],
+                                  'fuc': [], 'paths': 0, 'samples': [], 'error': f'worker died (exit code {p.exitcode})', 'wall': 0}
+                done.append(i)
+            elif time.time() - t0 > timeout_s:
+                p.terminate()
+                p.join(2)
+                if p.is_alive():
+                    p.kill()
+                results[i] = {'scenario': job[1]['name'], 'verdicts': [], 'lib': [], 'assumptions': [], 'fuc': [], 'paths': 0,
+                              'samples': [], 'error': None, 'wall': timeout_s,
+                              'unsupported': [f'Timeout: scenario exceeded {timeout_s}s (solver did not return)']}
+                done.append(i)
+        for i in done:
+            if verbose:
+                print(f'  .. {results[i]["scenario"]} ({results[i].get("wall")}s)', flush=True)
+            del running[i]
+    return results
+
+
 def load_known(prop):
     path = os.path.join(ROOT, 'known_findings.json')
     if not os.path.exists(path):
@@ -112,11 +163,8 @@ def main(argv=None):
     if args.only:
         scs = [s for s in scs if args.only in s['name']]
     jobs = [(prop, s, tier) for s in scs]
-    if args.jobs > 1 and len(jobs) > 1:
-        with mp.get_context('fork').Pool(min(args.jobs, len(jobs))) as pool:
-            results = pool.map(_worker, jobs, chunksize=1)
-    else:
-        results = [_worker(j) for j in jobs]
+    results = run_jobs(jobs, args.jobs, int(os.environ.get('PYVC_SCENARIO_TIMEOUT', 240 if tier == 'quick' else 900)),
+                       verbose=args.verbose)
 
     checker_errors = [f"{r['scenario']}: {r['error']}" for r in results if r['error']]
     obligations = []
@@ -156,6 +204,10 @@ def main(argv=None):
         return None
 
     native_failures = (native or {}).get('failures', []) if native and not native.get('error') else []
+    # a refuted *library contract* invalidates the trusted base: checker error, not a property violation
+    for f in [f for f in native_failures if str(f.get('key', '')).startswith('LIBCONTRACT:')]:
+        checker_errors.append(f"trusted base invalid: {f['key']}: {f['detail'][:300]}")
+    native_failures = [f for f in native_failures if not str(f.get('key', '')).startswith('LIBCONTRACT:')]
     # refuted obligations: confirm natively where the property module links a native check
     link = getattr(mod, 'NATIVE', {})
     groups = {}
